@@ -320,6 +320,23 @@ func Solve(dir, name, query string, timeoutS int, agree bool) SolveResult {
 	}
 	ch := make(chan ans, len(solverCfgs))
 	start := time.Now()
+	// first a single fast configuration alone (most obligations are decided by it in well under a second);
+	// the full race only when it gives no definite answer. With `agree` all configurations always run.
+	if !agree {
+		lead := solverCfgs[2] // cvc5
+		lt := 3
+		if timeoutS < lt {
+			lt = timeoutS
+		}
+		s, o := runSolver(ctx, lead, file, lt)
+		if s == "unsat" || s == "sat" {
+			r := SolveResult{Status: s, Solver: lead.Name, Secs: time.Since(start).Seconds(), Raw: map[string]string{lead.Name: s}}
+			if s == "sat" {
+				r.Model = o
+			}
+			return r
+		}
+	}
 	for _, cfg := range solverCfgs {
 		go func(cfg SolverCfg) {
 			t0 := time.Now()
